@@ -143,4 +143,34 @@ theorem label_lands (limit : Nat) (pre post : List (Nat × Item)) (ln : Nat) (na
       · exact h1b
   exact ⟨emitted, its1, its2, e1, ctxA, c1, cur1, rfl, h1a, hlab, h2a, h2b, heven, he1⟩
 
+/-- … and in EEPROM, in bytes: the label is the byte address right behind what pass 2 emits for
+    the items before it (no padding there) -/
+theorem label_lands_eeprom (limit : Nat) (pre post : List (Nat × Item)) (ln : Nat) (name : Str) (cur : Nat) (ctx1 : Ctx)
+    (e : Nat) (its : List (Nat × Item)) (ctx1' : Ctx) (acc : List Nat) (ctx2 : Ctx) (bytes : List Nat) (ctx2' : Ctx)
+    (h1 : pass1Items .eeprom limit (pre ++ (ln, .label name) :: post) cur ctx1 = .ok (e, its, ctx1'))
+    (h2 : pass2Items .eeprom its cur acc ctx2 = .ok (bytes, ctx2')) :
+    ∃ before its1 its2 e1 ctxA c1 cur1,
+      its = its1 ++ its2 ∧
+      pass1Items .eeprom limit pre cur ctx1 = .ok (e1, its1, ctxA) ∧
+      pass1Items .eeprom limit post e1
+        { ctxA with labels := ainsert name (.eeprom, e1 % 4294967296) ctxA.labels } = .ok (e, its2, ctx1') ∧
+      pass2Items .eeprom its1 cur acc ctx2 = .ok (acc ++ before, c1) ∧
+      pass2Items .eeprom its2 cur1 (acc ++ before) c1 = .ok (bytes, ctx2') ∧
+      e1 = cur + before.length := by
+  obtain ⟨e1, its1, ctxA, its2, h1a, h1b, hits⟩ := pass1Items_append .eeprom limit _ pre cur ctx1 e its ctx1' h1
+  subst hits
+  obtain ⟨cur1, b1, c1, h2a, h2b⟩ := pass2Items_append .eeprom its2 its1 cur acc ctx2 bytes ctx2' h2
+  obtain ⟨emitted, hb, he1⟩ := eeprom_lockstep limit pre cur ctx1 e1 its1 ctxA acc ctx2 b1 c1 h1a h2a
+  subst hb
+  have hlab : pass1Items .eeprom limit post e1
+      { ctxA with labels := ainsert name (.eeprom, e1 % 4294967296) ctxA.labels } = .ok (e, its2, ctx1') := by
+    unfold pass1Items at h1b
+    split at h1b
+    · simp [lineErr] at h1b
+    · simp only at h1b
+      split at h1b
+      · simp [lineErr] at h1b
+      · exact h1b
+  exact ⟨emitted, its1, its2, e1, ctxA, c1, cur1, rfl, h1a, hlab, h2a, h2b, he1⟩
+
 end Avra.Props.C02b
